@@ -21,8 +21,8 @@ Proof. exact bytes_run_framed. Qed.
 
 (* receive counter = number of delivered I-frames (mod 2^15): the k-th delivery carried N(S) = vr0 + k *)
 Theorem C05_delivery_count : forall nr_ok fs st d c s,
-  on_frames nr_ok st fs = (d, c, s) -> 0 <= vr st < 32768 ->
-  vr s = (vr st + Z.of_nat (length d)) mod 32768.
+  on_frames nr_ok st fs = (d, c, s) -> 0 <= rxvr st < 32768 ->
+  rxvr s = (rxvr st + Z.of_nat (length d)) mod 32768.
 Proof. exact on_frames_ns. Qed.
 
 (* non-vacuity: a stream cut in the middle of the APCI and in the middle of the ASDU *)
